@@ -354,8 +354,9 @@ static void check_line(int n, int eol, int pos, int fill) {
 }
 
 // ---------------------------------------------------------------- (c) BOM files
-static const uint32_t SCALARS[] = { 0x41, 0xE9, 0x20AC, 0x1F600, 0x0D, 0x0A };
-enum { NSCALAR = 6 };
+// CR, LF and code points whose UTF-16 units merely contain the bytes 0D / 0A (low byte, high byte, both, low surrogate DC0D)
+static const uint32_t SCALARS[] = { 0x41, 0xE9, 0x20AC, 0x1F600, 0x0D, 0x0A, 0x010D, 0x0D0A, 0x1F40D, 0x0A00 };
+enum { NSCALAR = 10 };
 static void utf8_put(std::string& s, uint32_t c) {
 	if (c < 0x80) s += (char)c;
 	else if (c < 0x800) { s += (char)(0xC0 | (c >> 6)); s += (char)(0x80 | (c & 0x3F)); }
@@ -812,7 +813,7 @@ int main(int argc, char** argv) {
 		std::vector<J> js;
 		for (int enc = 0; enc < 3; enc++) for (int len = 0; len <= BOMLEN; len++) { int cnt = 1; for (int i = 0; i < len; i++) cnt *= NSCALAR; for (int idx = 0; idx < cnt; idx++) { J j = { enc, len, idx }; js.push_back(j); } }
 		vf::parallel(js.size(), [&](uint64_t i) { check_bom(js[i].enc, js[i].len, js[i].idx, 0); check_bom(js[i].enc, js[i].len, js[i].idx, 1); }, 16);
-		vf::setinfo("bom", fmt("\"every sequence of <= %d scalars over {A, e-acute, euro, U+1F600, CR, LF} x UTF-8/UTF-16LE/UTF-16BE x written by POSIX / File::put\"", BOMLEN));
+		vf::setinfo("bom", fmt("\"every sequence of <= %d scalars over {A, e-acute, euro, U+1F600, CR, LF, U+010D, U+0D0A, U+1F40D, U+0A00} x UTF-8/UTF-16LE/UTF-16BE x written by POSIX / File::put\"", BOMLEN));
 	}
 	// (d) binary contents
 	if (!late("binary contents"))
